@@ -15,3 +15,4 @@ import BS.Properties.C12w
 #print axioms BS.WorkerTask.ok_has_output
 #print axioms BS.WorkerTask.success_reply_has_output
 #print axioms BS.WorkerTask.lost_as_success_unsafe
+#print axioms BS.WorkerTask.cancel_breaks_one_holder
